@@ -91,7 +91,7 @@ def coverage_from(m, reps, nontrivial_key, rule):
 
 PROC_WRAPS = {
     "lp/process.c": ["msg_queue_insert", "msg_queue_extract", "msg_allocator_alloc", "msg_allocator_free",
-                     "model_allocator_checkpoint_restore", "fossil_lp_collect"],
+                     "model_allocator_checkpoint_restore", "fossil_lp_collect", "gvt_on_msg_extraction"],
     "gvt/fossil.c": ["msg_allocator_free=vw_fossil_msg_allocator_free"],
 }
 
@@ -123,8 +123,10 @@ def build_proc(d, san=False, name="h_proc"):
     return vc.link(os.path.join(d, name), objs + core, san=san)
 
 
-def pscen(name, model, ck=1, glow=0, deadline=300, j=4, maxexec=None):
+def pscen(name, model, ck=1, glow=0, deadline=300, j=4, maxexec=None, maxg=None):
     a = ["--stateful", "-j", str(j), "--deadline", str(deadline), f"m={model}", f"ck={ck}", f"glow={glow}"]
+    if maxg is not None:
+        a += [f"maxg={maxg}"]
     if maxexec:
         a += ["--max-exec", str(maxexec)]
     return ("px_" + name, a)
@@ -139,6 +141,19 @@ def proc_scenarios(tier, part="all"):
     """h_proc scenario list.  Quick: models whose complete state space (every delivery order x every legal GVT announcement)
     is enumerated in seconds.  Thorough: the same with lower GVT values too, plus larger models under a deadline."""
     A = _pm(2, [1, 2], [2, 1, 7], 3)
+    if part == "acct":
+        # cancellation cascades: an anti-message whose rollback cancels a message a third LP has already processed (two tokens on a
+        # 3-ring, the first hop of one held back; two same-time events for one LP arriving in the wrong order).  maxg=0: no GVT
+        # announcements - they do not matter for the accounting contract and multiply the states by 30
+        ring = _pm(3, [2, 0, 2], [0, 0, 2], 4)
+        twice = _pm(3, [8, 0, 0], [2, 0, 0], 2)
+        sc = [pscen("ring_nog", ring, ck=1, maxg=0, deadline=240, j=2), pscen("twice_nog", twice, ck=1, maxg=0, deadline=240, j=4),
+              pscen("a_ck1", A, ck=1, deadline=240, j=2), pscen("b3_ck1", _pm(3, [7, 0, 1], [7, 2, 1], 3), ck=1, deadline=240, j=2)]
+        if tier != "quick":
+            sc += [pscen("ring_gvt", ring, ck=2, deadline=900, j=8), pscen("twice_gvt", twice, ck=1, deadline=900, j=8),
+                   pscen("zero2_nog", _pm(3, [3, 3, 0], [3, 3, 3], 1), ck=1, maxg=0, deadline=900, j=8),
+                   pscen("ring_H5_nog", _pm(3, [2, 2, 2], [0, 0, 2], 4), ck=2, maxg=0, deadline=900, j=8)]
+        return sc
     small = [
         ("a_ck1", A, 1, 0), ("a_ck2", A, 2, 0), ("a_ck3", A, 3, 0), ("a_ck1_glow", A, 1, 1),
         ("b3_ck1", _pm(3, [7, 0, 1], [7, 2, 1], 3), 1, 0),
@@ -148,7 +163,9 @@ def proc_scenarios(tier, part="all"):
         ("f_rng_auto", _pm(2, [2, 1], [1, 2, 2], 3, G=2), 0, 0), ("f_rng_ck2", _pm(2, [2, 1], [1, 2, 2], 3, G=2), 2, 1),
     ]
     sc = [pscen(n, m, ck=ck, glow=gl, deadline=240, j=2) for (n, m, ck, gl) in small]
-    if tier != "quick":
+    if tier != "quick" and part == "small":
+        sc = [pscen(n, m, ck=ck, glow=1, deadline=600, j=4) for (n, m, ck, gl) in small]
+    elif tier != "quick":
         big = [
             ("a_H4_ck1", _pm(2, [1, 2], [2, 1, 7], 4), 1, 0), ("a_H4_ck2", _pm(2, [1, 2], [2, 1, 7], 4), 2, 1),
             ("b3_H4", _pm(3, [7, 0, 1], [7, 2, 1], 4), 2, 0),
@@ -170,13 +187,15 @@ PROC_RULE = ("h_proc part: one scheduler thread drives the real process_msg()/Sc
              "quiescence history and end state = sequential execution")
 
 
-def proc_part(pid, d, tier, san=False):
+def proc_part(pid, d, tier, san=False, part="all"):
     """Builds h_proc from /repo's working tree and runs its scenarios; returns (reports, merged, violations)."""
     b = build_proc(os.path.join(d, "proc"), san=san)
-    reps, m, viol = vc.rsched_scenarios(pid, "h_proc", b, proc_scenarios(tier), d, workers=6 if tier == "quick" else 2)
+    reps, m, viol = vc.rsched_scenarios(pid, "h_proc", b, proc_scenarios(tier, part), d, workers=6 if tier == "quick" else (4 if part == "small" else 2))
     if not viol:
-        for k in ("rollbacks", "rollbacks_after_fossil", "rollbacks_to_kept_checkpoint", "anti_messages_delivered", "commits_checked",
-                  "quiescent_ends", "silent_executions"):
+        need = ("rollbacks", "rollbacks_after_fossil", "rollbacks_to_kept_checkpoint", "anti_messages_delivered", "commits_checked",
+                "quiescent_ends", "silent_executions") if part != "acct" else \
+               ("rollbacks", "anti_messages_delivered", "anti_cascade", "sends_accounting_checked", "quiescent_ends")
+        for k in need:
             if counters_nz(m, k) == 0:
                 raise vc.EngineError(f"vacuous: h_proc never saw '{k}'")
         if tier == "quick" and not m["exhaustive"]:
